@@ -531,25 +531,27 @@ func shareFrom(c *core.Ctx, prop, rule string, match func(o *core.Obligation) bo
 		c.Anchor(rule, "rule set "+prop)
 		return
 	}
-	// properties share clauses in both directions (C10 <-> C11): a rule set that is being evaluated as a
-	// source does not pull from the property that is pulling from it
-	if sharingActive[prop] {
+	// Properties share clauses in both directions and in chains (C10 <-> C11, C01 <- C10 <- C15 ...).  The import graph
+	// is cyclic, so the evaluation is layered by depth instead of by "who is pulling": a rule set evaluated as a source
+	// (depth 1) still pulls from its own sources, which are then evaluated natively (depth 2, no imports).  One
+	// evaluation per (program, property, depth): at most two extra evaluations of any rule set per run, whatever the
+	// shape of the import graph.  (An earlier scheme keyed the cache by the set of properties currently pulling; with
+	// the imports of rounds 7 and 8 that grew combinatorially.)
+	if shareDepth >= 2 {
 		return
 	}
-	sharingActive[c.Prop] = true
-	defer delete(sharingActive, c.Prop)
-	// one evaluation per (program, source property, set of properties currently pulling): `-prop all` and the nested
-	// imports would otherwise evaluate the same rule set dozens of times
-	var act []string
-	for k := range sharingActive {
-		act = append(act, k)
-	}
-	sort.Strings(act)
-	ck := shareKey{c.P, prop + "|" + strings.Join(act, ",")}
+	ck := shareKey{c.P, fmt.Sprintf("%s|%d", prop, shareDepth+1)}
 	obls, hit := shareCache[ck]
 	if !hit {
+		if shareBusy[ck] {
+			return // the same evaluation is already in progress further up (a cycle at equal depth)
+		}
+		shareBusy[ck] = true
 		sub, _ := core.NewCtx(c.P, prop, c.Tier, c.Seed, c.OutDir, "")
+		shareDepth++
 		fn(sub)
+		shareDepth--
+		delete(shareBusy, ck)
 		obls = sub.Obls
 		shareCache[ck] = obls
 	}
@@ -576,6 +578,8 @@ func shareFrom(c *core.Ctx, prop, rule string, match func(o *core.Obligation) bo
 }
 
 var sharingActive = map[string]bool{}
+var shareDepth int
+var shareBusy = map[shareKey]bool{}
 
 type shareKey struct {
 	p   *core.Program
